@@ -258,21 +258,52 @@ def judge_sequential(ctx, res):
             sig = classify_seek(dict(e, at=0, cutlen=0, res=e["visited"]), exp or [], init["backend"])
             if sig["kind"] == "seek-mismatch":
                 sig = {"kind": "seekgc-mismatch", "backend": init["backend"]}
-        if init["backend"] == "leveldb" and sig["kind"] in ("seek-mismatch", "get-mismatch", "seekgc-mismatch") \
-                and reconfirm.get("n", 0) < 5:
+        if init["backend"] == "leveldb" and sig["kind"] in ("seek-mismatch", "get-mismatch", "seekgc-mismatch"):
             # An unclassified disagreement on LevelDB only counts if it reproduces on a fresh database: the pinned goleveldb
             # was seen to return stale data nondeterministically (background compaction) under transaction churn - see the
             # report of C09 and TestLevelDBChurn; a defect of the code under test is deterministic and reproduces.
-            reconfirm["n"] = reconfirm.get("n", 0) + 1
-            if not reproduces(ctx, init, hist):
-                ctx.spec_drift.append({"what": "LevelDB answer differed once and did not reproduce on a fresh database (goleveldb nondeterminism)",
-                                       "src": init.get("src"), "observed": e.get("res"), "expected": exp})
+            # Decided once per history (first disagreement), for at most 8 histories per run.
+            if s not in reconfirm.setdefault("hist", {}) and len(reconfirm["hist"]) < 8:
+                reconfirm["n"] = reconfirm.get("n", 0) + 1
+                reconfirm["hist"][s] = reproduces(ctx, init, hist)
+                if not reconfirm["hist"][s]:
+                    ctx.spec_drift.append({"what": "LevelDB answers differed and did not reproduce on a fresh database (goleveldb nondeterminism)",
+                                           "src": init.get("src"), "observed": e.get("res"), "expected": exp, "history": hist})
+            if reconfirm["hist"].get(s) is False:
                 ctx.extra["leveldb_unreproduced"] = ctx.extra.get("leveldb_unreproduced", 0) + 1
                 continue
         ctx.violation(sig, {"what": "%s on the real store differs from the ordered-map answer (%s)" % (e["event"], ",".join(f["what"])),
                             "src": init.get("src"), "backend": init["backend"], "dao": init.get("dao"),
                             "observed": e.get("res", e.get("visited")), "expected": exp, "history": hist})
     return events, fails
+
+
+def events_to_schedule(evs):
+    sched = []
+    for e in evs:
+        ev = e["event"]
+        if ev == "cwrite":
+            sched.append({"a": "write", "r": 0, "batch": e["items"]})
+        elif ev == "cp":
+            sched.append({"a": e["step"], "r": 0, "batch": []})
+        elif ev in ("cr1", "cr2"):
+            sched.append({"a": ev[1:], "r": e["r"], "batch": []})
+        elif ev == "cget":
+            sched.append({"a": "get", "r": 0, "batch": [[e["key"], e["res"]]]})
+    return sched
+
+
+def reproduces_conc(ctx, evs):
+    """re-run one schedule on a fresh LevelDB (see judge_sequential: goleveldb nondeterminism)"""
+    reconfirm["cn"] = reconfirm.get("cn", 0) + 1
+    d = os.path.join(ctx.work, "in-cconfirm-%d" % reconfirm["cn"])
+    os.makedirs(d)
+    json.dump([events_to_schedule(evs)], open(os.path.join(d, "conc.json"), "w"))
+    r = ctx.go_driver("c09kv", "TestConcDriver", env={"VERIF_IN": d, "VERIF_BACKENDS": "leveldb"}, timeout=600)
+    st, tr = ctx.states, ctx.transitions
+    fails = ctx.trace_judge(SUB, "KVConcTrace.tla", "Trace_KVConc.cfg", os.path.join(r["_out"], "trace.ndjson"), timeout=600)
+    ctx.states, ctx.transitions = st, tr
+    return any(w for f in fails for w in f["what"] if not w.startswith("info:")) or bool(r.get("violations"))
 
 
 def judge_concurrent(ctx, res):
@@ -288,6 +319,9 @@ def judge_concurrent(ctx, res):
         starts.append(start)
     hard = []
     info = 0
+    bad_src = {events[starts[f["line"] - 1]].get("src") for f in fails
+               if events[starts[f["line"] - 1]]["backend"] != "leveldb" and any(not w.startswith("info:") for w in f["what"])}
+    failing_elsewhere = {i for i, e in enumerate(events) if e["event"] == "cinit" and e.get("src") in bad_src}
     for f in fails:
         what = [w for w in f["what"] if not w.startswith("info:")]
         if not what:
@@ -298,6 +332,17 @@ def judge_concurrent(ctx, res):
         e = events[li]
         s = starts[li]
         init = events[s]
+        if init["backend"] == "leveldb" and s not in failing_elsewhere:
+            # only the LevelDB run of this schedule disagrees: it counts if it reproduces on a fresh database
+            if s not in reconfirm.setdefault("chist", {}) and len(reconfirm["chist"]) < 8:
+                reconfirm["chist"][s] = reproduces_conc(ctx, events[s:li + 1])
+                if not reconfirm["chist"][s]:
+                    ctx.spec_drift.append({"what": "LevelDB-only disagreement of a gated schedule did not reproduce (goleveldb nondeterminism)",
+                                           "src": init.get("src"), "schedule": events[s:li + 1]})
+            if reconfirm["chist"].get(s) is False:
+                ctx.extra["leveldb_unreproduced"] = ctx.extra.get("leveldb_unreproduced", 0) + 1
+                hard.remove(f)
+                continue
         if e["event"] == "cget":
             sig = {"kind": "get-during-persist", "what": what[0]}
         else:
@@ -420,18 +465,7 @@ def replay(ctx):
         ctx.absorb(res)
         judge_sequential(ctx, res)
     else:
-        sched = []
-        for e in det["schedule"]:
-            ev = e["event"]
-            if ev == "cwrite":
-                sched.append({"a": "write", "r": 0, "batch": e["items"]})
-            elif ev == "cp":
-                sched.append({"a": e["step"], "r": 0, "batch": []})
-            elif ev in ("cr1", "cr2"):
-                sched.append({"a": ev[1:], "r": e["r"], "batch": []})
-            elif ev == "cget":
-                sched.append({"a": "get", "r": 0, "batch": [[e["key"], e["res"]]]})
-        json.dump([sched], open(os.path.join(ind, "conc.json"), "w"))
+        json.dump([events_to_schedule(det["schedule"])], open(os.path.join(ind, "conc.json"), "w"))
         cres = ctx.go_driver("c09kv", "TestConcDriver", env={"VERIF_IN": ind, "VERIF_BACKENDS": det.get("backend", "")}, timeout=600)
         ctx.absorb(cres)
         judge_concurrent(ctx, cres)
